@@ -40,6 +40,7 @@ pub const OPS: &[&str] = &[
     "clone", "eq", "eq-all-different", "eq-last-different", "drop", "drop-parsed",
     "datum-clone", "datum-eq", "datum-drop", "datum-walk", "datum-into-value",
     "serde-to_value", "serde-from_value", "serde-to_string", "serde-from_str", "serde-drop-value",
+    "serde-skipped-field", "serde-ignored-any", "serde-option-of-list", "serde-map-value-list",
 ];
 
 fn list_text(n: usize, dotted: bool) -> String {
@@ -147,6 +148,20 @@ fn build(op: &str, n: usize, dotted: bool) -> Built {
             Built::Dat2(datum_of(&t), datum_of(&t))
         }
         "serde-to_value" | "serde-to_string" => Built::Nums((0..n as u32).collect()),
+        // a long list sitting where the target type skips it / wraps it
+        #[cfg(feature = "full")]
+        "serde-skipped-field" => {
+            let long = serde_lexpr::to_value(&(0..n as u32).collect::<Vec<u32>>()).unwrap();
+            Built::Val(Value::list(vec![
+                Value::cons(Value::symbol("name"), Value::string("srv")),
+                Value::cons(Value::symbol("history"), long),
+                Value::cons(Value::symbol("port"), Value::from(8080u32)),
+            ]))
+        }
+        #[cfg(feature = "full")]
+        "serde-ignored-any" | "serde-option-of-list" => Built::Val(serde_lexpr::to_value(&(0..n as u32).collect::<Vec<u32>>()).unwrap()),
+        #[cfg(feature = "full")]
+        "serde-map-value-list" => Built::Val(Value::list(vec![Value::cons(Value::string("k"), serde_lexpr::to_value(&(0..n as u32).collect::<Vec<u32>>()).unwrap())])),
         #[cfg(feature = "full")]
         "serde-from_value" | "serde-drop-value" => Built::Val(serde_lexpr::to_value(&(0..n as u32).collect::<Vec<u32>>()).unwrap()),
         _ => Built::Val(build_value(n, dotted)),
@@ -379,6 +394,37 @@ fn run_op(op: &str, b: Built, n: usize) -> String {
             let xs: Vec<u32> = serde_lexpr::from_value(&v).unwrap();
             forget(v);
             xs.len().to_string()
+        }
+        #[cfg(feature = "full")]
+        ("serde-skipped-field", Built::Val(v)) => {
+            #[derive(serde_derive::Deserialize)]
+            struct Config {
+                name: String,
+                port: u16,
+            }
+            let r = serde_lexpr::from_value::<Config>(&v).map(|c| format!("{}:{}", c.name, c.port)).unwrap_or_else(|e| format!("rejected: {}", e.to_string().chars().take(60).collect::<String>()));
+            forget(v);
+            r
+        }
+        #[cfg(feature = "full")]
+        ("serde-ignored-any", Built::Val(v)) => {
+            let r = serde_lexpr::from_value::<serde::de::IgnoredAny>(&v).map(|_| "ignored".to_string()).unwrap_or_else(|e| format!("rejected: {}", e.to_string().chars().take(60).collect::<String>()));
+            forget(v);
+            r
+        }
+        #[cfg(feature = "full")]
+        ("serde-option-of-list", Built::Val(v)) => {
+            // Some(list) is encoded as a one-element list holding the list
+            let wrapped = Value::list(vec![v]);
+            let r = serde_lexpr::from_value::<Option<Vec<u32>>>(&wrapped).map(|o| o.map_or(0, |x| x.len()).to_string()).unwrap_or_else(|e| format!("rejected: {}", e.to_string().chars().take(60).collect::<String>()));
+            forget(wrapped);
+            r
+        }
+        #[cfg(feature = "full")]
+        ("serde-map-value-list", Built::Val(v)) => {
+            let r = serde_lexpr::from_value::<std::collections::BTreeMap<String, Vec<u32>>>(&v).map(|m| m.values().map(|x| x.len()).sum::<usize>().to_string()).unwrap_or_else(|e| format!("rejected: {}", e.to_string().chars().take(60).collect::<String>()));
+            forget(v);
+            r
         }
         #[cfg(feature = "full")]
         ("serde-from_str", Built::Text(t)) => {
